@@ -30,18 +30,27 @@ def run_cfgs(rep, exe, cfgs, budget_s, label, par=1):
     state = {'exhaustive': True, 'edges': 0, 'skipped': 0}
     tmpd = tempfile.mkdtemp(prefix='vs-', dir=f'{C.V}/build')
 
+    import queue
+    cpus = queue.Queue()            # single-worker explorers each get their own core (the worker pins itself to --cpu-base)
+    for k in range(max(par, 1)):
+        cpus.put(k)
+
     def one(ic):
         i, c = ic
         left = t_end - time.time()
         if left < 2:
             return i, c, None, 'skipped'
         out = f'{tmpd}/{i}.json'
-        cmd = [exe, '--scenario', c['scenario'], '--bound', str(c['bound']), '--jobs', str(C.NPROC if par == 1 else 1), '--deadline', f'{left:.0f}', '--out', out]
+        cpu = cpus.get()
+        cmd = [exe, '--scenario', c['scenario'], '--bound', str(c['bound']), '--jobs', str(C.NPROC if par == 1 else 1), '--cpu-base', str(cpu), '--deadline', f'{left:.0f}', '--out', out]
         if c['model'] == 'delay':
             cmd.append('--delay-bounding')
         for k, v in c['params'].items():
             cmd += ['--param', f'{k}={v}']
-        p = subprocess.run(cmd, stdout=subprocess.PIPE, stderr=subprocess.PIPE, text=True)
+        try:
+            p = subprocess.run(cmd, stdout=subprocess.PIPE, stderr=subprocess.PIPE, text=True)
+        finally:
+            cpus.put(cpu)
         if p.returncode not in (0, 1) or not os.path.exists(out):
             return i, c, None, f'explorer exited {p.returncode}: {p.stderr[-400:]}'
         d = json.load(open(out))
